@@ -357,3 +357,43 @@ func TestMapSemanticsAndOwnedRangeOrder(t *testing.T) {
 		t.Fatal("the window between Load and Store of a check-then-act was never entered")
 	}
 }
+
+func TestCondProducerConsumer(t *testing.T) {
+	for seed := uint64(1); seed <= 200; seed++ {
+		Begin(cfg(seed, int(seed)%NPolicies))
+		var mu Mutex
+		c := NewCond(&mu)
+		queue := 0
+		got := 0
+		consumer := func() {
+			for i := 0; i < 3; i++ {
+				mu.Lock()
+				for queue == 0 {
+					c.Wait()
+				}
+				queue--
+				got++
+				mu.Unlock()
+			}
+		}
+		Run([]func(){
+			consumer,
+			consumer,
+			func() {
+				for i := 0; i < 6; i++ {
+					mu.Lock()
+					queue++
+					mu.Unlock()
+					if i%2 == 0 {
+						c.Signal()
+					} else {
+						c.Broadcast()
+					}
+				}
+			},
+		})
+		if got != 6 || queue != 0 {
+			t.Fatalf("seed %d: got %d, queue %d", seed, got, queue)
+		}
+	}
+}
